@@ -1,11 +1,18 @@
 (** Proofs for C12 stage 3: the models of the real filters compute the documented functions. *)
 From Qv Require Import Common.Bytes Gen.GenFilters Gen.GenControl Model.Filters Model.RealFilters Model.FindDomain
   Model.MatchNet Model.LoadFile Model.InetPton Model.Addr Spec.FiltersSpec Spec.ControlSpec Spec.RealFiltersSpec
-  Proofs.FiltersProofs Proofs.FindDomainProofs Proofs.IpblProofs Proofs.AddrTheorems.
+  Proofs.FiltersProofs Proofs.FindDomainProofs Proofs.IpblProofs Proofs.AddrTheorems Proofs.MatchNetProofs.
 Local Open Scope bool_scope.
 
 (* ------------------------------------------------------------------------------------------------ *)
 (** * case-insensitive comparison *)
+
+Lemma bytes_okb_ok l : bytes_okb l = true -> bytes_ok l.
+Proof.
+  unfold bytes_okb, bytes_ok. intros H. apply Forall_forall. intros x Hx. rewrite forallb_forall in H.
+  apply N.ltb_lt. apply H. exact Hx.
+Qed.
+
 
 Lemma ci_eqb_iff a b : ci_eqb a b = true <-> lower a = lower b.
 Proof. unfold ci_eqb. apply bytes_eqb_eq. Qed.
@@ -692,6 +699,89 @@ Proof.
   destruct t'; inversion H; subst d; eexists; split; reflexivity.
 Qed.
 
+(** ** fromdomain *)
+Lemma bit_set_testbit u n : (0 <= n)%Z -> bit_set u (Z.shiftl 1 n) = Z.testbit u n.
+Proof. intros Hn. unfold bit_set. rewrite Z.land_comm, (land_bit u n Hn). apply negb_involutive. Qed.
+
+Definition nets_okb (alen : nat) (bits : N) (nets : list (bytes * N)) : bool :=
+  forallb (fun nl => Nat.leb alen (length (fst nl)) && bytes_okb (fst nl) && N.leb (snd nl) bits) nets.
+
+Lemma fd_nets_ok : nets_okb 4 32 FD_NETS4 = true /\ nets_okb 16 128 FD_NETS6 = true.
+Proof. split; reflexivity. Qed.
+
+Lemma any_net4_doc a nets : length a = 16 -> bytes_ok a -> nets_okb 4 32 nets = true ->
+  any_net ip4_matchnet a nets = Some (existsb (fun nl => in_net4b a (fst nl) (snd nl)) nets).
+Proof.
+  intros Hl Ha. induction nets as [|[n len] nets IH]; intros Hok; [reflexivity|].
+  cbn [nets_okb forallb] in Hok. apply andb_true_iff in Hok as [H1 Hrest].
+  apply andb_true_iff in H1 as [H1 H3]. apply andb_true_iff in H1 as [H1 H2]. cbn [fst snd] in *.
+  apply Nat.leb_le in H1. apply N.leb_le in H3.
+  cbn [any_net existsb fst snd]. rewrite (ip4_matchnet_correct a n len Hl H1 Ha (bytes_okb_ok _ H2) H3).
+  destruct (in_net4b a n len); [reflexivity|]. apply IH. exact Hrest.
+Qed.
+
+Lemma any_net6_doc a nets : length a = 16 -> bytes_ok a -> nets_okb 16 128 nets = true ->
+  any_net ip6_matchnet a nets = Some (existsb (fun nl => in_net6b a (fst nl) (snd nl)) nets).
+Proof.
+  intros Hl Ha. induction nets as [|[n len] nets IH]; intros Hok; [reflexivity|].
+  cbn [nets_okb forallb] in Hok. apply andb_true_iff in Hok as [H1 Hrest].
+  apply andb_true_iff in H1 as [H1 H3]. apply andb_true_iff in H1 as [H1 H2]. cbn [fst snd] in *.
+  apply Nat.leb_le in H1. apply N.leb_le in H3.
+  cbn [any_net existsb fst snd]. rewrite (ip6_matchnet_correct a n len Hl H1 Ha (bytes_okb_ok _ H2) H3).
+  destruct (in_net6b a n len); [reflexivity|]. apply IH. exact Hrest.
+Qed.
+
+Lemma fd_addr_doc u a : length a = 16 -> bytes_ok a -> fd_addr_hit u a = Some (doc_unroutable u a).
+Proof.
+  intros Hl Ha. unfold fd_addr_hit, doc_unroutable, doc_private, doc_localhost.
+  destruct fd_nets_ok as [N4 N6].
+  assert (B1 : bit_set u FD_BIT_LOCALHOST = Z.testbit u 1) by (apply (bit_set_testbit u 1); lia).
+  assert (B2 : bit_set u FD_BIT_PRIVATE = Z.testbit u 2) by (apply (bit_set_testbit u 2); lia).
+  rewrite B1, B2.
+  destruct (is_v4mapped a).
+  - destruct (Z.testbit u 2).
+    + rewrite (any_net4_doc a FD_NETS4 Hl Ha N4). cbn [andb]. reflexivity.
+    + cbn [andb orb]. reflexivity.
+  - destruct (Z.testbit u 2).
+    + rewrite (any_net6_doc a FD_NETS6 Hl Ha N6). cbn [andb]. f_equal.
+      destruct (existsb (fun nl => in_net6b a (fst nl) (snd nl)) FD_NETS6), (is_linklocal a), (is_sitelocal a); reflexivity.
+    + cbn [andb orb]. reflexivity.
+Qed.
+
+Lemma fd_all_doc u mx : Forall (fun a => length a = 16) mx -> Forall bytes_ok mx ->
+  fd_all_hit u mx = Some (forallb (doc_unroutable u) mx).
+Proof.
+  induction mx as [|a mx IH]; intros Hl Hb; [reflexivity|].
+  inversion Hl; subst. inversion Hb; subst. cbn [fd_all_hit forallb]. rewrite (fd_addr_doc u a) by assumption.
+  destruct (doc_unroutable u a); [apply IH; assumption|reflexivity].
+Qed.
+
+Lemma fromdomain_doc s uc dc gc d :
+  Forall (fun a => length a = 16) (r_mx s) -> Forall bytes_ok (r_mx s) ->
+  doc_fromdomain s uc dc gc = Some d -> exists o, cb_fromdomain s uc dc gc = Some o /\ same_obs o d.
+Proof.
+  unfold doc_fromdomain, cb_fromdomain. intros Hl Hb H.
+  destruct (r_mailfrom s) as [|c mf]; [inversion H; subst d; eexists; split; reflexivity|].
+  destruct (doc_value true uc dc gc KEY_FROMDOMAIN) as [[u o]|] eqn:Ev; [|discriminate].
+  destruct (global_value_doc _ _ _ _ _ _ Ev) as [Hv Ht]. cbv zeta in *. rewrite Hv.
+  destruct (u <=? 0)%Z eqn:Ele; [inversion H; subst d; eexists; split; reflexivity|].
+  apply Z.leb_gt in Ele. rewrite (Ht Ele).
+  assert (B0 : bit_set u FD_BIT_DNS = Z.testbit u 0) by (apply (bit_set_testbit u 0); lia).
+  assert (B1 : bit_set u FD_BIT_LOCALHOST = Z.testbit u 1) by (apply (bit_set_testbit u 1); lia).
+  assert (B2 : bit_set u FD_BIT_PRIVATE = Z.testbit u 2) by (apply (bit_set_testbit u 2); lia).
+  rewrite B0, B1, B2.
+  destruct (r_mx s) as [|a mx] eqn:Emx.
+  - destruct (Z.testbit u 0); [|inversion H; subst d; eexists; split; reflexivity].
+    destruct (Z.eqb (r_fromdomain s) DNS_ERROR_TEMP_Z); [inversion H; subst d; eexists; split; reflexivity|].
+    destruct (Z.eqb (r_fromdomain s) DNS_ERROR_PERM_Z); [inversion H; subst d; eexists; split; reflexivity|].
+    destruct (Z.eqb (r_fromdomain s) 1); [inversion H; subst d; eexists; split; reflexivity|].
+    destruct (Z.eqb (r_fromdomain s) 2); inversion H; subst d; eexists; split; reflexivity.
+  - destruct (Z.testbit u 1 || Z.testbit u 2); cbn [andb] in H.
+    + rewrite (fd_all_doc u (a :: mx) Hl Hb).
+      destruct (forallb (doc_unroutable u) (a :: mx)); inversion H; subst d; eexists; split; reflexivity.
+    + inversion H; subst d. eexists. split; reflexivity.
+Qed.
+
 (* ------------------------------------------------------------------------------------------------ *)
 (** * C. which file, which list: getfile() and userconf_get_buffer() with "!inherit" *)
 
@@ -872,12 +962,6 @@ Proof.
   destruct t as [z|]; cbn; [rewrite Z.eqb_refl|]; reflexivity.
 Qed.
 
-Lemma bytes_okb_ok l : bytes_okb l = true -> bytes_ok l.
-Proof.
-  unfold bytes_okb, bytes_ok. intros H. apply Forall_forall. intros x Hx. rewrite forallb_forall in H.
-  apply N.ltb_lt. apply H. exact Hx.
-Qed.
-
 Lemma decode_files_ok ud files fs : forallb bytes_okb files = true -> decode_files ud files = Some fs -> fs_ok fs.
 Proof.
   revert fs. induction files as [|f files IH]; intros fs Hok H; cbn in *.
@@ -895,10 +979,11 @@ Qed.
 
 Lemma doc_filter_sound id s fs uc dc gc d :
   has_nul (r_helo s) = false -> length (r_ip s) = 16 -> bytes_ok (r_ip s) -> fs_ok fs ->
+  Forall (fun a => length a = 16) (r_mx s) -> Forall bytes_ok (r_mx s) ->
   doc_filter id s fs uc dc gc = Some d ->
   exists o, run_filter id s fs uc dc gc = Some (Some o) /\ same_obs o d.
 Proof.
-  intros Hn Hl Hip Hfs. unfold doc_filter, run_filter.
+  intros Hn Hl Hip Hfs Hmxl Hmxb. unfold doc_filter, run_filter.
   destruct (N.eqb id ID_BADMAILFROM); [intros H; destruct (badmailfrom_doc _ _ _ H) as (o & -> & Ho); eauto|].
   destruct (N.eqb id ID_HELO); [intros H; destruct (helo_doc _ _ _ _ _ _ Hn H) as (o & -> & Ho); eauto|].
   destruct (N.eqb id ID_IPBL); [intros H; destruct (ipbl_doc _ _ _ Hl Hip Hfs H) as (o & -> & Ho); eauto|].
@@ -909,12 +994,13 @@ Proof.
   destruct (N.eqb id ID_NOMAIL); [intros H; destruct (nomail_doc _ _ _ H) as (o & -> & Ho); eauto|].
   destruct (N.eqb id ID_DNSBL); [intros H; destruct (dnsbl_doc _ _ _ H) as (o & -> & Ho); eauto|].
   destruct (N.eqb id ID_NAMEBL); [intros H; destruct (namebl_doc _ _ _ H) as (o & -> & Ho); eauto|].
+  destruct (N.eqb id ID_FROMDOMAIN); [intros H; destruct (fromdomain_doc _ _ _ _ _ Hmxl Hmxb H) as (o & -> & Ho); eauto|].
   discriminate.
 Qed.
 
-Theorem rf_checker_sound id misc mf helo ip rcpts dns files d :
-  rf_doc_case id misc mf helo ip rcpts dns files = Some d ->
-  exists o, rf_case id misc mf helo ip rcpts dns files = RDone o /\ obs_of_fout o = d.
+Theorem rf_checker_sound id misc mf helo ip rcpts dns mx files d :
+  rf_doc_case id misc mf helo ip rcpts dns mx files = Some d ->
+  exists o, rf_case id misc mf helo ip rcpts dns mx files = RDone o /\ obs_of_fout o = d.
 Proof.
   unfold rf_doc_case, rf_case. cbv zeta. intros H.
   destruct (has_nul mf || has_nul helo || has_nul rcpts || negb (Nat.eqb (length ip) 16)
@@ -922,7 +1008,10 @@ Proof.
   - cbn [orb] in H. discriminate.
   - cbn [orb] in H.
     destruct (negb (bytes_okb ip) || negb (forallb bytes_okb files)) eqn:G2; [discriminate|]. cbn [orb] in H |- *.
-    destruct (N.ltb 4 (nth 4 misc 0%N) && negb (N.eqb (nth 4 misc 0%N) 234)) eqn:G3; [discriminate|].
+    destruct (N.ltb 4 (nth 4 misc 0%N) && negb (N.eqb (nth 4 misc 0%N) 234)) eqn:G3; [discriminate|]. cbn [orb] in H |- *.
+    destruct (negb (Nat.eqb (length mx mod 16) 0)) eqn:G4; [discriminate|]. cbn [orb] in H |- *.
+    destruct (negb (bytes_okb mx)) eqn:G5; [discriminate|].
+    apply negb_false_iff in G4. apply Nat.eqb_eq in G4. apply negb_false_iff in G5.
     apply orb_false_iff in G2 as [Gip Gf]. apply negb_false_iff in Gip. apply negb_false_iff in Gf.
     repeat (apply orb_false_iff in G1; destruct G1 as [G1 ?]).
     destruct (decode_files (N.testbit (nth 0 misc 0%N) 0) files) as [fs|] eqn:Ed; [|discriminate].
@@ -933,16 +1022,19 @@ Proof.
     destruct (doc_filter id ss fs uc dc gc) as [dd|] eqn:Edoc; [|discriminate]. cbn [option_map] in H. inversion H; subst d.
     assert (Hn : has_nul (r_helo ss) = false) by assumption.
     assert (Hl : length (r_ip ss) = 16) by (cbn; apply Nat.eqb_eq; apply negb_false_iff; assumption).
-    destruct (doc_filter_sound id ss fs uc dc gc dd Hn Hl (bytes_okb_ok _ Gip) (decode_files_ok _ _ _ Gf Ed) Edoc) as (o & Ho & Hs).
+    assert (Hmxl : Forall (fun a => length a = 16) (r_mx ss)).
+    { cbn. apply (chunks_spec 16 (length mx) mx); [discriminate|exact G4|lia]. }
+    assert (Hmxb : Forall bytes_ok (r_mx ss)) by (cbn; apply chunks_ok; apply bytes_okb_ok; exact G5).
+    destruct (doc_filter_sound id ss fs uc dc gc dd Hn Hl (bytes_okb_ok _ Gip) (decode_files_ok _ _ _ Gf Ed) Hmxl Hmxb Edoc) as (o & Ho & Hs).
     rewrite Ho. exists o. split; [reflexivity|exact Hs].
 Qed.
 
-Corollary rf_checker_accepts_model id misc mf helo ip rcpts dns files o :
-  rf_case id misc mf helo ip rcpts dns files = RDone o ->
-  spec_ok_rf id misc mf helo ip rcpts dns files (Some (obs_of_fout o)) <> VBad.
+Corollary rf_checker_accepts_model id misc mf helo ip rcpts dns mx files o :
+  rf_case id misc mf helo ip rcpts dns mx files = RDone o ->
+  spec_ok_rf id misc mf helo ip rcpts dns mx files (Some (obs_of_fout o)) <> VBad.
 Proof.
   intros H. unfold spec_ok_rf.
-  destruct (rf_doc_case id misc mf helo ip rcpts dns files) as [d|] eqn:E; [|discriminate].
-  destruct (rf_checker_sound _ _ _ _ _ _ _ _ _ E) as (o' & Ho & Hd). rewrite H in Ho. inversion Ho; subst o'.
+  destruct (rf_doc_case id misc mf helo ip rcpts dns mx files) as [d|] eqn:E; [|discriminate].
+  destruct (rf_checker_sound _ _ _ _ _ _ _ _ _ _ E) as (o' & Ho & Hd). rewrite H in Ho. inversion Ho; subst o'.
   rewrite Hd, rf_obs_eqb_refl. discriminate.
 Qed.
